@@ -289,6 +289,119 @@ func c11Scenarios() []c11Scn {
 			})
 		}, ref: fmt.Sprintf("fmt.Println(%q, %s)", ch.tag, ch.ref)})
 	}
+	// ---- member chains on `any` in statement-header positions: each link is lowered to a generated assertion statement
+	// (`_autoGo_N, _ := x.(map[string]any)`) that must be placed BEFORE the statement whose header contains the chain
+	tyMSA := types.NewMap(types.Typ[types.String], gogen.TyEmptyInterface)
+	chainBD := func(e *c11Env) { // av.b.d.(map[string]any)
+		e.cb.Val(e.v("av")).MemberVal("b", 0).MemberVal("d", 0).TypeAssert(tyMSA, 0)
+	}
+	chainBC := func(e *c11Env) { // av.b.c.(string)
+		e.cb.Val(e.v("av")).MemberVal("b", 0).MemberVal("c", 0).TypeAssert(types.Typ[types.String], 0)
+	}
+	const refBD = `av.(map[string]any)["b"].(map[string]any)["d"].(map[string]any)`
+	const refBC = `av.(map[string]any)["b"].(map[string]any)["c"].(string)`
+	add(c11Scn{tag: "member/any.pos/range-define", build: func(e *c11Env) {
+		e.cb.ForRange("k", "v")
+		chainBD(e)
+		e.cb.RangeAssignThen(token.NoPos)
+		e.print("member/any.pos/range-define", func() int { e.cb.VarVal("k").VarVal("v"); return 2 })
+		e.cb.End()
+	}, ref: "for k, v := range " + refBD + " {\n\t\tfmt.Println(\"member/any.pos/range-define\", k, v)\n\t}"})
+	add(c11Scn{tag: "member/any.pos/range-assign", build: func(e *c11Env) {
+		cb := e.cb
+		cb.NewVar(types.Typ[types.String], "rk")
+		cb.NewVar(gogen.TyEmptyInterface, "rv")
+		cb.ForRange().VarRef(scopeVar(cb, "rk")).VarRef(scopeVar(cb, "rv"))
+		chainBD(e)
+		cb.RangeAssignThen(token.NoPos)
+		e.print("member/any.pos/range-assign", func() int { cb.VarVal("rk").VarVal("rv"); return 2 })
+		cb.End()
+	}, ref: "var rk string\n\tvar rv any\n\tfor rk, rv = range " + refBD + " {\n\t\tfmt.Println(\"member/any.pos/range-assign\", rk, rv)\n\t}"})
+	add(c11Scn{tag: "member/any.pos/range-assign-key", build: func(e *c11Env) {
+		cb := e.cb
+		cb.NewVar(types.Typ[types.String], "rk2")
+		cb.ForRange().VarRef(scopeVar(cb, "rk2"))
+		chainBD(e)
+		cb.RangeAssignThen(token.NoPos)
+		e.print("member/any.pos/range-assign-key", func() int { cb.VarVal("rk2"); return 1 })
+		cb.End()
+	}, ref: "var rk2 string\n\tfor rk2 = range " + refBD + " {\n\t\tfmt.Println(\"member/any.pos/range-assign-key\", rk2)\n\t}"})
+	add(c11Scn{tag: "member/any.pos/range-novars", build: func(e *c11Env) {
+		cb := e.cb
+		cb.ForRange()
+		chainBD(e)
+		cb.RangeAssignThen(token.NoPos)
+		e.print("member/any.pos/range-novars", func() int { cb.Val("once"); return 1 })
+		cb.End()
+	}, ref: "for range " + refBD + " {\n\t\tfmt.Println(\"member/any.pos/range-novars\", \"once\")\n\t}"})
+	add(c11Scn{tag: "member/any.pos/if", mayReject: true, build: func(e *c11Env) {
+		e.cb.If()
+		chainBC(e)
+		e.cb.Val("deep").BinaryOp(token.EQL).Then()
+		e.print("member/any.pos/if", func() int { e.cb.Val("yes"); return 1 })
+		e.cb.End()
+	}, ref: "if " + refBC + " == \"deep\" {\n\t\tfmt.Println(\"member/any.pos/if\", \"yes\")\n\t}"})
+	add(c11Scn{tag: "member/any.pos/else-if", mayReject: true, build: func(e *c11Env) {
+		e.cb.If().Val(e.v("bf")).Then()
+		e.print("member/any.pos/else-if", func() int { e.cb.Val("no"); return 1 })
+		e.cb.Else().If()
+		chainBC(e)
+		e.cb.Val("deep").BinaryOp(token.EQL).Then()
+		e.print("member/any.pos/else-if", func() int { e.cb.Val("yes"); return 1 })
+		e.cb.End().End()
+	}, ref: "if bf {\n\t\tfmt.Println(\"member/any.pos/else-if\", \"no\")\n\t} else if " + refBC + " == \"deep\" {\n\t\tfmt.Println(\"member/any.pos/else-if\", \"yes\")\n\t}"})
+	add(c11Scn{tag: "member/any.pos/switch-tag", mayReject: true, build: func(e *c11Env) {
+		e.cb.Switch()
+		chainBC(e)
+		e.cb.Then().Case().Val("deep").Then()
+		e.print("member/any.pos/switch-tag", func() int { e.cb.Val("deep-case"); return 1 })
+		e.cb.End().End()
+	}, ref: "switch " + refBC + " {\n\tcase \"deep\":\n\t\tfmt.Println(\"member/any.pos/switch-tag\", \"deep-case\")\n\t}"})
+	add(c11Scn{tag: "member/any.pos/for-cond", mayReject: true, build: func(e *c11Env) {
+		e.cb.For()
+		chainBC(e)
+		e.cb.Val("shallow").BinaryOp(token.EQL).Then()
+		e.print("member/any.pos/for-cond", func() int { e.cb.Val("never"); return 1 })
+		e.cb.End()
+		e.print("member/any.pos/for-cond", func() int { e.cb.Val("after"); return 1 })
+	}, ref: "for " + refBC + " == \"shallow\" {\n\t\tfmt.Println(\"member/any.pos/for-cond\", \"never\")\n\t}\n\tfmt.Println(\"member/any.pos/for-cond\", \"after\")"})
+	// one link = one generated statement: fits the single init slot of if / switch / for headers
+	chainA := func(e *c11Env) { e.cb.Val(e.v("av")).MemberVal("a", 0).TypeAssert(types.Typ[types.Int], 0) }
+	const refA = `av.(map[string]any)["a"].(int)`
+	add(c11Scn{tag: "member/any.pos1/if", build: func(e *c11Env) {
+		e.cb.If()
+		chainA(e)
+		e.cb.Val(1).BinaryOp(token.EQL).Then()
+		e.print("member/any.pos1/if", func() int { e.cb.Val("yes"); return 1 })
+		e.cb.End()
+	}, ref: "if " + refA + " == 1 {\n\t\tfmt.Println(\"member/any.pos1/if\", \"yes\")\n\t}"})
+	add(c11Scn{tag: "member/any.pos1/switch-tag", build: func(e *c11Env) {
+		e.cb.Switch()
+		chainA(e)
+		e.cb.Then().Case().Val(1).Then()
+		e.print("member/any.pos1/switch-tag", func() int { e.cb.Val("one"); return 1 })
+		e.cb.End().End()
+	}, ref: "switch " + refA + " {\n\tcase 1:\n\t\tfmt.Println(\"member/any.pos1/switch-tag\", \"one\")\n\t}"})
+	add(c11Scn{tag: "member/any.pos1/for-cond", mayReject: true, build: func(e *c11Env) {
+		e.cb.For()
+		chainA(e)
+		e.cb.Val(2).BinaryOp(token.EQL).Then()
+		e.print("member/any.pos1/for-cond", func() int { e.cb.Val("never"); return 1 })
+		e.cb.End()
+		e.print("member/any.pos1/for-cond", func() int { e.cb.Val("after"); return 1 })
+	}, ref: "for " + refA + " == 2 {\n\t\tfmt.Println(\"member/any.pos1/for-cond\", \"never\")\n\t}\n\tfmt.Println(\"member/any.pos1/for-cond\", \"after\")"})
+	add(c11Scn{tag: "member/any.pos/var-init", build: func(e *c11Env) {
+		e.cb.DefineVarStart(token.NoPos, "w")
+		chainBC(e)
+		e.cb.EndInit(1)
+		e.print("member/any.pos/var-init", func() int { e.cb.VarVal("w"); return 1 })
+	}, ref: "w := " + refBC + "\n\tfmt.Println(\"member/any.pos/var-init\", w)"})
+	add(c11Scn{tag: "member/any.pos/closure-body", build: func(e *c11Env) {
+		cb := e.cb
+		cb.NewClosure(nil, nil, false).BodyStart(e.pkg)
+		e.print("member/any.pos/closure-body", func() int { chainBC(e); return 1 })
+		cb.End().Call(0).EndStmt()
+	}, ref: "func() {\n\t\tfmt.Println(\"member/any.pos/closure-body\", " + refBC + ")\n\t}()"})
 	add(c11Scn{tag: "member/map.assign", build: func(e *c11Env) {
 		e.cb.Val(e.v("mi")).MemberRef("y").Val(55).Assign(1)
 		e.print("member/map.assign", func() int { e.cb.Val(e.v("mi")).MemberVal("y", 0); return 1 })
